@@ -63,7 +63,7 @@ func init() {
 			if R == nil {
 				return
 			}
-			res := runLocks(p, busGuards(R), map[string]bool{PkgBus: true})
+			res := runLocksFull(p, busGuards(R), map[string]bool{PkgBus: true}, false, busImmutable(R))
 			c.Stats["product_states"] += res.States
 			c.Stats["lock_roots"] = res.Roots + res.Closures
 			c.Stats["lock_ops"] = res.LockOps
